@@ -1214,7 +1214,8 @@ fn fix_unused_params(td: &mut TypeDef, ts_only_variations: bool, choice: u32) {
         }
         let extra = Field { ident: Some(format!("extra_{}", p.to_lowercase())), ty: TyExpr::Param(p.clone()), ..Field::default() };
         let concretised = td.params.iter().any(|q| q.name == p && q.concrete.is_some());
-        if ts_only_variations && !concretised && choice % 3 == 0 {
+        let any_concretised = td.params.iter().any(|q| q.concrete.is_some());
+        if ts_only_variations && !concretised && !any_concretised && choice % 3 == 0 {
             if let Body::Named(fs) = &mut td.body {
                 fs.push(Field { ident: Some(format!("_marker_{}", p.to_lowercase())), ty: TyExpr::Lib("std::marker::PhantomData", vec![TyExpr::Param(p.clone())]), skip: true, ..Field::default() });
                 td.params.iter_mut().filter(|q| q.name == p).for_each(|q| q.ts_bound = true);
